@@ -37,22 +37,34 @@ def prop(pid, level, rules, not_decided, witnesses=(), assumptions=()):
                   "witnesses": list(witnesses), "assumptions": list(assumptions), "selftest": True}
 
 
-def run_rules(ctx, names):
-    """Evaluate the named rules (cached on ctx)."""
+def run_rules(ctx, names, errors=None):
+    """Evaluate the named rules (cached on ctx). With `errors` (a list), an AnalysisError of one rule is recorded
+    there as (rule, text) and the other rules still run; without it the first AnalysisError propagates."""
+    from .facts import AnalysisError
     cache = ctx.__dict__.setdefault("_rule_cache", {})
     out = []
     for n in names:
         fn = RULES[n]
-        if fn not in cache:
-            res = fn(ctx)
-            if not isinstance(res, tuple):
-                res = (res,)
-            cache[fn] = {r.rule: r for r in res}
-        r = cache[fn].get(n)
-        if r is None:
-            raise KeyError("rule function for %s did not produce it" % n)
-        if r.floor_failures and not r.violations:
-            from .facts import AnalysisError
-            raise AnalysisError("; ".join(r.floor_failures))
-        out.append(r)
+        try:
+            if fn not in cache:
+                try:
+                    res = fn(ctx)
+                except AnalysisError as e:
+                    cache[fn] = e
+                    raise
+                if not isinstance(res, tuple):
+                    res = (res,)
+                cache[fn] = {r.rule: r for r in res}
+            if isinstance(cache[fn], AnalysisError):
+                raise cache[fn]
+            r = cache[fn].get(n)
+            if r is None:
+                raise KeyError("rule function for %s did not produce it" % n)
+            if r.floor_failures and not r.violations:
+                raise AnalysisError("; ".join(r.floor_failures))
+            out.append(r)
+        except AnalysisError as e:
+            if errors is None:
+                raise
+            errors.append((n, str(e)))
     return out
